@@ -118,7 +118,9 @@ impl Encoder {
             panic!("Encoder::encode - target buffer too small");
         }
 
-        while !self.steps.is_empty() && dest.len() + 4 <= dest.capacity() {
+        // steps that write nothing (empty strings, empty payloads) never need space; processing them
+        // right away keeps a packet from being completed by an encode call that writes no bytes
+        while !self.steps.is_empty() && (dest.len() + 4 <= dest.capacity() || is_empty_encoding_step(self.steps.front().unwrap(), packet)) {
             let step = self.steps.pop_front().unwrap();
             process_encoding_step(&mut self.steps, step, packet, dest)?;
         }
@@ -593,6 +595,17 @@ fn encode_vli(value: u32, dest: &mut Vec<u8>) -> GneissResult<()> {
     }
 
     Ok(())
+}
+
+fn is_empty_encoding_step(step: &EncodingStep, packet: &MqttPacket) -> bool {
+    match step {
+        EncodingStep::StringSlice(getter, offset) => { getter(packet).len() <= *offset }
+        EncodingStep::BytesSlice(getter, offset) => { getter(packet).len() <= *offset }
+        EncodingStep::IndexedString(getter, index, offset) => { getter(packet, *index).len() <= *offset }
+        EncodingStep::UserPropertyName(getter, index, offset) => { getter(packet, *index).name.len() <= *offset }
+        EncodingStep::UserPropertyValue(getter, index, offset) => { getter(packet, *index).value.len() <= *offset }
+        _ => { false }
+    }
 }
 
 fn process_byte_slice_encoding(bytes: &[u8], offset: usize, dest: &mut Vec<u8>) -> usize {
